@@ -177,6 +177,12 @@ def gen_diskdump(rng, d, tag):
                 cuts[rng.randrange(len(cuts))] = c
                 cuts = sorted(set(cuts))
         bounds = [0] + cuts + [maxm]
+        # empty members [c, c) (a split into more files than there are pages to share out):
+        # at the top, in the middle, at a cut; they tie on end_pfn with their lower neighbour
+        if rng.random() < 0.5:
+            for _ in range(rng.randint(1, 2)):
+                c = rng.choice(bounds[1:])
+                bounds.insert(bounds.index(c), c)
         for i in range(len(bounds) - 1):
             path = os.path.join(d, "%s.%d" % (tag, i))
             tool("mkdiskdump", path, base + "split = 1\nstart_pfn = %d\nend_pfn = %d\n" % (bounds[i], bounds[i + 1]))
